@@ -182,7 +182,7 @@ func (a *genericAuthenticator) getSubjectInformation(ctx heimdall.Context, authD
 	)
 
 	if a.ttl > 0 {
-		cacheKey = a.calculateCacheKey(authData)
+		cacheKey = a.calculateCacheKey(ctx, authData)
 		if entry, err := cch.Get(ctx.AppContext(), cacheKey); err == nil {
 			logger.Debug().Msg("Reusing subject information from cache")
 
@@ -345,10 +345,13 @@ func (a *genericAuthenticator) getCacheTTL(sessionLifespan *SessionLifespan) tim
 	return a.ttl
 }
 
-func (a *genericAuthenticator) calculateCacheKey(reference string) string {
+func (a *genericAuthenticator) calculateCacheKey(ctx heimdall.Context, reference string) string {
 	digest := sha256.New()
 	hashx.WriteBytes(digest, a.e.Hash())
+	hashx.WriteString(digest, a.id)
 	hashx.WriteString(digest, reference)
+	hashx.WriteStringsFunc(digest, a.fwdHeaders, func(name string) string { return ctx.Request().Header(name) })
+	hashx.WriteStringsFunc(digest, a.fwdCookies, func(name string) string { return ctx.Request().Cookie(name) })
 
 	return hex.EncodeToString(digest.Sum(nil))
 }
